@@ -333,6 +333,7 @@ def run_case(ck, c, src, dst, sd, dd, stats=None, model_items=None):
     n_dest = dd.n[c["remap_to"]]
     coded = coded_kind(n, n_src)
     info = {"method": c["method"], "coord_type": c["coord_type"], "kind": kind, "remap_to": c["remap_to"], "rank": c["rank"],
+            "after_history": bool(c.get("pre") or c.get("mut")), "mutators": [m["op"] for m in c.get("mut", [])],
             "trailing_length_matches_other_kind_first": coded != kind,
             "single_destination_point": n_dest == 1,
             "k_exceeds_n_node": bool(c["method"] == "idw" and c["k"] > n["nodes"])}
@@ -435,6 +436,117 @@ def model_errs(ck, c, rec, sd, dd):
     return mo[0] == 0
 
 
+# ------------------------------------------------------------------------------------------------
+# histories on the SAME grid objects: earlier remaps, public mutators of coordinates, then the remap
+# under test against the oracle on the grids' CURRENT coordinates
+
+def apply_mutation(g, m):
+    import xarray as xr
+    op = m["op"]
+    if op in ("welzl", "cartesian average"):
+        g.construct_face_centers(method=op)
+        return
+    if op == "normalize":
+        g.normalize_cartesian_coordinates()
+        return
+    p = KIND_PREFIX[m["kind"]]
+    comps = ("lon", "lat") if op == "shift_lonlat" else ("x", "y", "z")
+    for cname in comps:
+        old = getattr(g, "%s_%s" % (p, cname))
+        vals = np.asarray(old.values, dtype=float)
+        if op == "scale_xyz":
+            new = vals * float(m["by"])
+        else:
+            new = np.roll(vals, int(m["by"]))          # element i takes the position of element i - by
+        setattr(g, "%s_%s" % (p, cname), xr.DataArray(new, dims=old.dims, attrs=dict(old.attrs)))
+
+
+def quiet_remap(spec, src, dst, n):
+    """an earlier remap on the same objects (its own result is checked elsewhere)"""
+    import uxarray as ux
+    try:
+        data = np.arange(float(n[spec["kind"]]))
+        da = ux.UxDataArray(data, dims=[DIM[spec["kind"]]], uxgrid=src, name="pre")
+        if spec["method"] == "nn":
+            da.remap.nearest_neighbor(dst, remap_to=spec["remap_to"], coord_type=spec["coord_type"])
+        else:
+            da.remap.inverse_distance_weighted(dst, remap_to=spec["remap_to"], coord_type=spec["coord_type"],
+                                               power=2, k=max(2, min(3, n[spec["kind"]])))
+    except Exception:
+        pass
+
+
+def gen_history_case(ck, gs_src, gs_dst, note, n_src_kinds):
+    """a remap case preceded by remaps of the same and of other kinds / coordinate types and by public
+    mutators of the source (and sometimes destination) coordinates"""
+    rng = ck.rng
+    kind = rng.choice(KINDS)
+    ct = rng.choice(["spherical", "cartesian"])
+    n_src = n_src_kinds[kind]
+    method = "idw" if (rng.random() < 0.4 and n_src >= 2) else "nn"
+    rank = rng.choice([1, 2, 2])
+    rows, tags, lead = make_rows(rng, n_src, rank, True, with_identity=(n_src <= 64))
+    c = {"src": gs_src, "dst": gs_dst, "same": note == "same", "note": note, "method": method, "kind": kind,
+         "remap_to": rng.choice(KINDS), "coord_type": ct, "rank": rank, "lead": lead, "rows": rows, "tags": tags, "exact": True}
+    if method == "idw":
+        c["k"] = min(n_src, rng.choice([2, 3, 4]))
+        c["power"] = rng.choice([1, 2])
+    pre = []
+    if rng.random() < 0.85:
+        pre.append({"method": rng.choice(["nn", "idw"]), "kind": kind, "remap_to": rng.choice(KINDS), "coord_type": ct})
+    for _ in range(rng.randrange(0, 3)):
+        pre.append({"method": rng.choice(["nn", "idw"]), "kind": rng.choice(KINDS), "remap_to": rng.choice(KINDS),
+                    "coord_type": rng.choice(["spherical", "cartesian"])})
+    rng.shuffle(pre)
+    mut = []
+    # at least one mutator of the coordinates the tree under test is built from
+    if kind == "face centers" and rng.random() < 0.5:
+        mut.append({"on": "src", "op": rng.choice(["welzl", "cartesian average"])})
+        if ct == "cartesian" or rng.random() < 0.5:
+            mut.append({"on": "src", "op": "shift_xyz" if ct == "cartesian" else "shift_lonlat", "kind": kind, "by": rng.choice([1, 2])})
+    elif ct == "spherical":
+        mut.append({"on": "src", "op": "shift_lonlat", "kind": kind, "by": rng.choice([1, 2, -1])})
+    else:
+        mut.append({"on": "src", "op": rng.choice(["shift_xyz", "shift_xyz", "scale_xyz"]), "kind": kind, "by": rng.choice([1, 2])})
+        if mut[-1]["op"] == "scale_xyz" and rng.random() < 0.6:
+            mut.append({"on": "src", "op": "normalize"})
+    if rng.random() < 0.3:
+        mut.append({"on": "src", "op": rng.choice(["shift_lonlat", "shift_xyz"]), "kind": rng.choice(KINDS), "by": 1})
+    if note != "same" and rng.random() < 0.3:
+        mut.append({"on": "dst", "op": "shift_lonlat" if ct == "spherical" else "shift_xyz", "kind": c["remap_to"], "by": 1})
+    c["pre"] = pre
+    c["mut"] = mut
+    return c
+
+
+def run_history_case(ck, c, stats=None):
+    src = mk_grid(c["src"])
+    dst = src if c.get("same") else mk_grid(c["dst"])
+    n0 = {kind: int(getattr(src, {"nodes": "n_node", "face centers": "n_face", "edge centers": "n_edge"}[kind])) for kind in KINDS}
+    for spec in c.get("pre", []):
+        quiet_remap(spec, src, dst, n0)
+    # every derived coordinate exists before the mutators run (they replace stored values; deriving edge
+    # or face centres from deliberately displaced nodes would give degenerate geometry, not a remap question)
+    GridData(src)
+    if not c.get("same"):
+        GridData(dst)
+    for m in c.get("mut", []):
+        try:
+            apply_mutation(src if m["on"] == "src" else dst, m)
+        except Exception as ex:
+            if stats is not None:
+                stats["mutator_errors"] = stats.get("mutator_errors", 0) + 1
+                stats.setdefault("mutator_error_sample", "%s: %r" % (m, ex))
+    sd = GridData(src)                       # the grids' CURRENT coordinates
+    dd = sd if c.get("same") else GridData(dst)
+    cols = (0, 1) if c["coord_type"] == "spherical" else (2, 3, 4)
+    if any(not math.isfinite(v) for (gdt, kd) in ((sd, c["kind"]), (dd, c["remap_to"])) for j in cols for v in gdt.f[kd][j]):
+        if stats is not None:
+            stats["history_skipped_nonfinite"] = stats.get("history_skipped_nonfinite", 0) + 1
+        return None, sd, dd
+    return run_case(ck, c, src, dst, sd, dd, stats), sd, dd
+
+
 def run_corpus(ck):
     cdir = os.path.join(common.VERIF, "corpus", "C12")
     n = 0
@@ -465,9 +577,11 @@ def main(ck):
         "('from the file', not the centroid).  Cases: data on nodes / faces / edges (dimension name says which), rank 1-3, rows = "
         "one-hot rows of every source element + a constant row + random rows (exact dyadics or generic floats); all three "
         "destinations; both coordinate types; NN and IDW with k in {2,3,8,n,random} and power in {0,0.5,1,1.5,2,3,5}.  "
+        "Histories on the SAME source/destination grid objects: 0-3 earlier remaps (same and other kinds / coordinate types / methods), then public mutators of the source (sometimes destination) coordinates - construct_face_centers (both methods), the *_lon/*_lat and *_x/*_y/*_z setters (positions rotated among the elements, or scaled), normalize_cartesian_coordinates - then the remap under test against the oracle on the grids' current coordinates.  "
         "non-trivial = source kind has >= 2 elements; distinct = distinct (pair, method, kind, destination, coordinates, k, power, data)")
     per_pair = 10 if quick else 14
-    hist, stats = {}, {}
+    hist, stats, mut_hist = {}, {}, {}
+    n_hist_per_pair = 5 if quick else 8
     n_corpus = run_corpus(ck)
     dims_checked = 0
     n_model = 0
@@ -500,6 +614,22 @@ def main(ck):
                 ck.sample({"source": gs_src["name"], "destination": gs_dst["name"], "counts_source": sd.n, "method": c["method"],
                            "data_on": c["kind"], "remap_to": c["remap_to"], "coord_type": c["coord_type"], "k": c.get("k"),
                            "power": c.get("power"), "last_row_in": c["rows"][-1][:5], "last_row_out": [float(v) for v in rec["out"][-1][:5]]})
+        for _ in range(n_hist_per_pair):
+            hc = gen_history_case(ck, gs_src, gs_dst, note, sd.n)
+            ck.note_case((pi, "history", hc["method"], hc["kind"], hc["remap_to"], hc["coord_type"], json.dumps(hc["pre"]), json.dumps(hc["mut"])),
+                         sd.n[hc["kind"]] >= 2)
+            hist["history"] = hist.get("history", 0) + 1
+            for m in hc["mut"]:
+                mut_hist[m["op"]] = mut_hist.get(m["op"], 0) + 1
+            rec, hsd, hdd = run_history_case(ck, hc, stats)
+            if rec is not None and not rec.get("raised") and ok and not rec["failed"] and model_budget(hc, rec["n_dest"]):
+                diff = model_compare(ck, hc, rec, hsd, hdd, stats)
+                n_model += 1
+                if diff:
+                    ck.corr_failures.append({"case": slim(hc), "diff": diff})
+            if len(ck.cov["samples"]) < 4 and hc["mut"] and pi >= 2:
+                ck.sample({"history_on_same_grids": {"earlier_remaps": hc["pre"], "mutators": hc["mut"],
+                                                     "then": [hc["method"], hc["kind"], hc["remap_to"], hc["coord_type"]]}})
     # model of the dims rule and of the kind selection, against small exhaustive inputs
     if ok:
         lines, want = [], []
@@ -519,6 +649,7 @@ def main(ck):
     ck.extra.update({
         "case_classes": hist, "grid_pairs": len(pairs), "results_with_dims_checked": dims_checked, "model_comparisons": n_model,
         "source_kind_confusions_seen": stats.get("source_kind", 0), "corpus_cases": n_corpus,
+        "history_mutators": mut_hist, "mutator_errors": stats.get("mutator_errors", 0), "history_skipped_nonfinite": stats.get("history_skipped_nonfinite", 0), "mutator_error_sample": stats.get("mutator_error_sample"),
         "error_branch_model_vs_impl": {"agree": stats.get("error_branch_agree", 0), "differ": stats.get("error_branch_differ", 0),
                                        "note": "implementation raised on an admissible input (reported above as a failure/known finding): does the model of the code as it stands take its error branch too? recorded only"},
         "idw_weight_formula": {"agree": stats.get("idw_weight_formula_agree", 0), "differ": stats.get("idw_weight_formula_differ", 0),
@@ -568,6 +699,10 @@ def audit(ck, rng):
 
 def replay(ck, rp):
     c = rp["case"]
+    if c.get("pre") or c.get("mut"):
+        ck.note_case("replay")
+        run_history_case(ck, c)
+        return
     src = mk_grid(c["src"])
     dst = src if c.get("same") else mk_grid(c["dst"])
     sd = GridData(src)
